@@ -375,7 +375,9 @@ func (ex *Exec) bindSelf(st *State, c *Contract, e *Env) {
 		e.vars[b.Name] = BVal{Val: v, Type: params[i+k].Type()}
 	}
 	if len(c.Captures) > 0 {
-		if len(c.Captures) != len(fn.FreeVars) {
+		// a closure may capture more than its contract declares: such a variable is an ordinary cell the contract
+		// says nothing about (its content is unconstrained at entry, and a write to it is outside the footprint)
+		if len(c.Captures) > len(fn.FreeVars) {
 			ex.abort("STALE-CONTRACT: %s declares %d captures, closure has %d", c.Name, len(c.Captures), len(fn.FreeVars))
 		}
 		for _, b := range c.Captures {
